@@ -50,7 +50,7 @@ type Ctx struct {
 	Start    time.Time
 	Rule     string
 	cases    []*Case
-	ReplayID int // >=0: only this case is of interest
+	ReplayID int          // >=0: only this case is of interest
 	rawOut   map[int]Sexp // unprojected model outputs
 	golden   int          // cases cross-checked in the kernel
 	Notes    []string
@@ -390,25 +390,26 @@ func (c *Ctx) Finish() int {
 	dis := envInt("VERIF_DISCHARGED", 0)
 	assum := strings.Split(strings.TrimSpace(os.Getenv("VERIF_ASSUMPTIONS")), "\n")
 	cov := map[string]any{
-		"obligations":         obl,
-		"discharged":          dis,
-		"checker_cmd":         envStr("VERIF_CHECKER_CMD", "make -C /verif/coq (coqc 8.16.1, full .vo) + coqc Properties/"+c.Prop+".v"),
-		"trusted_base":        trustedBase(),
-		"evaluations":         evals,
-		"distinct_nontrivial": nontrivial,
-		"rule":                c.Rule,
-		"samples":             samples,
-		"class_histogram":     classHist,
-		"histograms":          c.Hist,
-		"proof_status":        proofStatus,
-		"model_status":        modelStatus,
-		"kernel_cross_checked": c.golden,
-		"print_assumptions":   assum,
-		"theorems":            strings.Fields(os.Getenv("VERIF_THEOREMS")),
-		"gt_oracle_violations": len(gtViol),
+		"obligations":              obl,
+		"discharged":               dis,
+		"checker_cmd":              envStr("VERIF_CHECKER_CMD", "make -C /verif/coq (coqc 8.16.1, full .vo) + coqc Properties/"+c.Prop+".v"),
+		"trusted_base":             trustedBase(),
+		"evaluations":              evals,
+		"distinct_nontrivial":      nontrivial,
+		"rule":                     c.Rule,
+		"samples":                  samples,
+		"class_histogram":          classHist,
+		"histograms":               c.Hist,
+		"proof_status":             proofStatus,
+		"model_status":             modelStatus,
+		"kernel_cross_checked":     c.golden,
+		"coqchk":                   os.Getenv("VERIF_COQCHK"),
+		"print_assumptions":        assum,
+		"theorems":                 strings.Fields(os.Getenv("VERIF_THEOREMS")),
+		"gt_oracle_violations":     len(gtViol),
 		"model_impl_disagreements": len(disagree),
-		"known_finding_hits":  knownHits,
-		"notes":               c.Notes,
+		"known_finding_hits":       knownHits,
+		"notes":                    c.Notes,
 	}
 	ev := map[string]any{
 		"property_id": c.Prop,
